@@ -262,7 +262,10 @@ def run_prog(prog):
     doers = [ctx.objs[i] for i in prog["doers"]]
     if ctor:                      # doers given at construction, do() called without them
         doist.doers = list(doers)
-    runs = [dict(doers=None if ctor else doers)]
+    # the collection handed to do()/ado() is the caller's: any iterable is accepted and it is never modified
+    handed = tuple(doers) if prog.get("doers_as") == "tuple" else doers
+    handed_copy = list(handed)
+    runs = [dict(doers=None if ctor else handed)]
     for a in prog.get("again", []):
         kw = {}
         if a.get("limit") is not None:
@@ -324,6 +327,7 @@ def run_prog(prog):
         "raised": raised,
         "efflog": ctx.efflog,
         "skew": [list(x) for x in ctx.skew],
+        "caller_doers_changed": list(handed) != handed_copy,
     }
 
 
@@ -752,6 +756,8 @@ def gen_broad(rng, n):
             p = gen_dynamic(rng, faults=(rng.random() < 0.4), always_p=0.5, tocks=rng.choice(["dyadic", "any"]))
         if rng.random() < 0.3:
             p["mode"] = "ado"
+        if rng.random() < 0.2:
+            p["doers_as"] = "tuple"
         r = rng.random()
         if r < 0.2:
             add_reruns(rng, p)
@@ -840,4 +846,6 @@ def clock_oracle(obs):
     if obs.get("skew"):
         k, i, own, t = obs["skew"][0]
         return f"doer {i} read tyme {own} through its tymth at a {k} while the Doist running it is at tyme {t}"
+    if obs.get("caller_doers_changed"):
+        return "the run modified the doers list object the caller handed to do()/ado() (runtime extend/remove must act on the Doist's own copy)"
     return None
